@@ -16,6 +16,10 @@ import (
 	"sync"
 	"time"
 
+	clconfig "github.com/metrico/cloki-config"
+	"github.com/metrico/cloki-config/config"
+	"github.com/metrico/qryn/ctrl"
+	"github.com/metrico/qryn/ctrl/logger"
 	"github.com/metrico/qryn/ctrl/qryn/heputils"
 	"github.com/metrico/qryn/ctrl/qryn/maintenance"
 
@@ -820,10 +824,111 @@ func Main(c *run.Ctx) {
 	}
 	c.Floor("fault_runs", nScen*30, fr)
 	c.Floor("restarts_converged", nScen*30, conv)
+	nodeListMonitor(c)
 	// every statement of every Rotate run of every generated configuration x 3 kinds was
 	// faulted; the configurations themselves are a PRNG sample of the configuration space
 	c.Exhaustive(false)
 	c.Note("fault points are enumerated exhaustively per configuration; configurations and change sequences are PRNG-chosen (plus 9 fixed scenarios), hence exhaustive=false")
+}
+
+// nodeListMonitor drives ctrl.Rotate (the entry point the binary calls) over a configured list of data nodes: every
+// configured node must end with its own retention, whatever the other nodes look like (same cluster name, same
+// database name, different hosts). The per-node work is the real maintenance.Rotate on one catalogue per node; only
+// the connection is replaced (hook ctrl.VerifSetProject, build tag verif).
+func nodeListMonitor(c *run.Ctx) {
+	r := c.Rng("c19-node-lists")
+	for k := 0; k < c.Pick(12, 120); k++ {
+		n := 2 + r.Intn(3)
+		type node struct {
+			db  config.ClokiBaseDataBase
+			cfg Cfg
+			st  *cat.Catalogue
+		}
+		var nodes []*node
+		clusters := []string{"", "main", "main", "eu"}
+		for i := 0; i < n; i++ {
+			cfg := genCfg(r)
+			cl := clusters[r.Intn(len(clusters))]
+			sc := &Scenario{Clustered: cl != ""}
+			st, err := initialState(sc, Cfg{Policy: cfg.Policy})
+			if err != nil {
+				c.Undecided("node list: initial state: " + err.Error())
+				return
+			}
+			db := config.ClokiBaseDataBase{Name: dbName, Host: fmt.Sprintf("ch-%d", i), Port: 9000, ClusterName: cl, TTLDays: cfg.TTLDays, StoragePolicy: cfg.Policy}
+			for _, t := range cfg.Tiers {
+				db.TTLPolicy = append(db.TTLPolicy, struct {
+					Timeout string `json:"ttl_policy" mapstructure:"ttl_policy" default:""`
+					MoveTo  string `json:"move_to" mapstructure:"move_to" default:""`
+				}{Timeout: time.Duration(t.Seconds * float64(time.Second)).String(), MoveTo: t.Disk})
+			}
+			nodes = append(nodes, &node{db: db, cfg: cfg, st: st})
+		}
+		byHost := map[string]*node{}
+		var dbs []config.ClokiBaseDataBase
+		for _, nd := range nodes {
+			byHost[nd.db.Host] = nd
+			dbs = append(dbs, nd.db)
+		}
+		restore := ctrl.VerifSetProject("qryn",
+			func(*config.ClokiBaseDataBase, logger.ILogger) error { return nil }, nil,
+			func(base []config.ClokiBaseDataBase, lg logger.ILogger) error {
+				// what maintenance.RotateAll does per node, on the node's catalogue instead of a dialled connection
+				for _, d := range base {
+					nd := byHost[d.Host]
+					if nd == nil {
+						return fmt.Errorf("unknown node %s", d.Host)
+					}
+					var pol []maintenance.RotatePolicy
+					for _, p := range d.TTLPolicy {
+						dur, err := time.ParseDuration(p.Timeout)
+						if err != nil {
+							return err
+						}
+						pol = append(pol, maintenance.RotatePolicy{TTL: dur, MoveTo: p.MoveTo})
+					}
+					if err := maintenance.Rotate(cat.NewConn(nd.st, dbName, nil), d.ClusterName, d.ClusterName != "", pol, d.TTLDays, d.StoragePolicy, cat.NoLog{}); err != nil {
+						return err
+					}
+				}
+				return nil
+			})
+		conf := clconfig.New(clconfig.CLOKI_WRITER, nil, "", "")
+		conf.Setting.DATABASE_DATA = dbs
+		err := func() (err error) {
+			defer func() {
+				if p := recover(); p != nil {
+					err = fmt.Errorf("panic: %v", p)
+				}
+			}()
+			return ctrl.Rotate(conf, "qryn")
+		}()
+		restore()
+		c.Case(fmt.Sprintf("node-list|n=%d", n))
+		c.Floor("node lists rotated through ctrl.Rotate", 0, 1)
+		if err != nil {
+			c.Violation("node-list/rotate-fails", fmt.Sprintf("ctrl.Rotate over %d healthy nodes failed: %v", n, err), map[string]any{"nodes": dbs})
+			continue
+		}
+		for _, nd := range nodes {
+			fs, und := checkState(nd.st, nd.cfg)
+			for _, u := range und {
+				c.Undecided("node list: " + u)
+			}
+			// same signatures as the single-database monitor (<table>/<rule>): what is known there is known here
+			seen := map[string]bool{}
+			for _, f := range fs {
+				sig := f.Table + "/" + f.Rule
+				if seen[sig] {
+					continue
+				}
+				seen[sig] = true
+				c.Violation(sig, fmt.Sprintf("after ctrl.Rotate over %d configured data nodes, node %s (cluster %q, database %s) does not carry its configured retention %s: %s",
+					n, nd.db.Host, nd.db.ClusterName, nd.db.Name, nd.cfg, f.Desc()), map[string]any{"nodes": dbs, "node": nd.db.Host})
+			}
+		}
+	}
+	c.Floor("node lists rotated through ctrl.Rotate", c.Pick(12, 120), 0)
 }
 
 // Replay re-runs one stored case verbosely.
